@@ -8,6 +8,10 @@ import (
 	"strings"
 )
 
+// maxPtrDepth: how many pointers are followed to reach a value. (A pointer type may point to
+// itself - type P *P; p = &p - and following it would never end.)
+const maxPtrDepth = 16
+
 // ResolveValue traverses a value by field access (supporting nested structs, maps, slices).
 // Field access can use either the struct field name or its JSON tag (if present).
 // Returns (value, true) if resolution succeeds, (nil, false) otherwise.
@@ -22,7 +26,7 @@ func ResolveValue(v any, fieldName string) (any, bool) {
 
 func resolveValueRecursive(rv reflect.Value, fieldName string) (any, bool) {
 	// Dereference pointers
-	for rv.Kind() == reflect.Ptr {
+	for depth := 0; rv.Kind() == reflect.Ptr && depth < maxPtrDepth; depth++ {
 		if rv.IsNil() {
 			return nil, false
 		}
@@ -119,7 +123,7 @@ func CanDescend(v any) bool {
 	}
 
 	rv := reflect.ValueOf(v)
-	for rv.Kind() == reflect.Ptr {
+	for depth := 0; rv.Kind() == reflect.Ptr && depth < maxPtrDepth; depth++ {
 		if rv.IsNil() {
 			return false
 		}
@@ -151,7 +155,7 @@ func structToMap(data any, onPath map[uintptr]bool) map[string]any {
 
 	rv := reflect.ValueOf(data)
 	// Dereference pointers
-	for rv.Kind() == reflect.Ptr {
+	for depth := 0; rv.Kind() == reflect.Ptr && depth < maxPtrDepth; depth++ {
 		if rv.IsNil() {
 			return result
 		}
@@ -210,7 +214,7 @@ func structToMap(data any, onPath map[uintptr]bool) map[string]any {
 // could address. A type without exported fields (time.Time, big.Int) is a value, not a record:
 // converted to a map it would be an empty one.
 func hasExportedFields(t reflect.Type) bool {
-	for t.Kind() == reflect.Ptr {
+	for depth := 0; t.Kind() == reflect.Ptr && depth < maxPtrDepth; depth++ {
 		t = t.Elem()
 	}
 	if t.Kind() != reflect.Struct {
@@ -262,7 +266,7 @@ func addPromotedFields(result map[string]any, rv reflect.Value, onPath map[uintp
 // type, a pointer to one) into a map[string]any. ok is false for every other value.
 func StringKeyedMap(data any) (map[string]any, bool) {
 	rv := reflect.ValueOf(data)
-	for rv.IsValid() && rv.Kind() == reflect.Ptr {
+	for depth := 0; rv.IsValid() && rv.Kind() == reflect.Ptr && depth < maxPtrDepth; depth++ {
 		if rv.IsNil() {
 			return nil, false
 		}
@@ -288,7 +292,7 @@ func PopulateStructFields(m map[string]any, data any) {
 
 	rv := reflect.ValueOf(data)
 	// Dereference pointers
-	for rv.Kind() == reflect.Ptr {
+	for depth := 0; rv.Kind() == reflect.Ptr && depth < maxPtrDepth; depth++ {
 		if rv.IsNil() {
 			return
 		}
